@@ -101,6 +101,7 @@ def busy_blocks(rnd, n):
     for k in range(n):
         steps = []
         tid = [0]
+        renamed = set()
 
         def nid():
             tid[0] += 1
@@ -117,6 +118,14 @@ def busy_blocks(rnd, n):
                     txs.append({"id": nid(), "type": "Unbond", "from": a, "args": {"pub": rnd.choice(["v1", "v2", "v3", "v4"]), "coin": "BIP", "value": "%du" % rnd.randint(1, 3)}})
                 else:
                     txs.append({"id": nid(), "type": "Lock", "from": a, "args": {"coin": "BIP", "value": "%du" % rnd.randint(1, 5), "due": "h+%d" % rnd.randint(1, 4)}})
+            # candidates change their public keys (the old keys enter the block list), new candidates appear
+            for v, o in rnd.sample([("v1", "o1"), ("v2", "o2"), ("v3", "o3"), ("v4", "o4"), ("c5", "a5")], rnd.randint(0, 3)):
+                if v not in renamed:
+                    renamed.add(v)
+                    txs.append({"id": nid(), "type": "EditCandidatePublicKey", "from": o, "args": {"pub": v, "newPub": "k" + v}})
+            if rnd.random() < 0.5:
+                a = rnd.choice(users)
+                txs.append({"id": nid(), "type": "DeclareCandidacy", "from": a, "args": {"address": a, "pub": "n%d" % tid[0], "comm": 10, "coin": "BIP", "stake": "%du" % rnd.choice([100, 2000])}})
             steps.append({"op": "block", "txs": txs})
         steps.append({"op": "skip", "n": 13})
         out.append({"id": "NB%d" % k, "world": "W2", "family": "determinism", "det": True, "lean": True, "steps": steps})
